@@ -22,10 +22,13 @@ class C10(Prop):
             "values of require_null_terminated, with and without return_parse_end, plus Parse/ParseWithLength, and empty buffers; "
             "libFuzzer fz_parse evaluates the same relations on raw bytes. Oracle: see DESIGN.md C10 (end within the buffer, prefix "
             "re-parses to an identical tree, termination verdict from the independently computed value end, error position == "
-            "global error pointer inside the buffer, NULL error pointer after success). non-trivial = failure offset >= 1 or "
+            "global error pointer inside the buffer, NULL error pointer after success); plus, for every accepted text whether strict or lenient (raw control and "
+            "zero bytes inside string literals included), the relation between the flag values: what follows the parse end reported without the flag "
+            "decides the call with the flag. non-trivial = failure offset >= 1 or "
             ">= 1 byte after the value; distinct by (buffer, flags) hash")
     ASSUMPTIONS = ["tails with bytes after an in-buffer terminator get no accept/reject verdict (the statement is silent), only position relations"]
-    REQUIRED_CLASSES = ["nt_must_succeed", "nt_must_fail", "nt_open", "failure", "empty_buffer", "prefix_reparsed"]
+    REQUIRED_CLASSES = ["nt_must_succeed", "nt_must_fail", "nt_open", "failure", "empty_buffer", "prefix_reparsed", "flag_relation_must_succeed",
+                        "flag_relation_must_fail", "raw_control_byte_in_string"]
 
     def budget(self, tier):
         return {"workers": 10, "examples": 1000 if tier == "quick" else 20000}
@@ -48,6 +51,8 @@ class C10(Prop):
                 st.sampled_from(["delete", "insert", "replace", "dup", "swap", "truncate"]),
                 st.integers(0, 10 ** 6), st.sampled_from(list(EDIT_ALPHABET))).map(list)),
             "empty": gens.chance(41),
+            # a raw zero byte (or another control byte) INSIDE a string literal: one of the long-standing lenient forms
+            "raw_in_string": st.one_of(st.none(), st.none(), st.none(), st.none(), st.sampled_from([0, 0, 0, 1, 0x1f, 0x0a])),
         })
 
     def run_case(self, lib, case, stats):
@@ -55,6 +60,12 @@ class C10(Prop):
         body = model.emit_text(case["jv"], rnd)
         if case["edit"]:
             body = apply_edit(body, case["edit"][0], case["edit"][1], case["edit"][2])
+        if case.get("raw_in_string") is not None:
+            inside = string_positions(body)
+            if inside:
+                at = inside[case["rseed"] % len(inside)]
+                body = body[:at] + bytes([case["raw_in_string"]]) + body[at:]
+                stats.cls("raw_control_byte_in_string")
         text = (BOM if case["bom"] else b"") + case["lead"] + body + case["tail"]
         if case["empty"]:
             text = b""
@@ -66,10 +77,31 @@ class C10(Prop):
             n = len(data)
             combos = ((0, 0), (0, 1), (1, 0), (1, 1)) if entry in (1, 3) else ((0, 0),)
             rc = lib.classify(data[:-1] if entry < 2 else data)
+            seen = {}
             for rq, want_end in combos:
                 po = lib.parse(entry, data, (rq + want_end + case["rseed"]) & 1, rq, want_end)
                 stats.inner += 1
                 accepted = bool(po.tree)
+                seen[(rq, want_end)] = (accepted, po.end_off)
+                if rq == 1 and seen.get((0, 1), (False, 0))[0] and n > 0:
+                    # relation between the two flag values, for ANY accepted text (strict or lenient): the call without the
+                    # flag reported where the value ends; what follows that point decides the call with the flag
+                    e = seen[(0, 1)][1]
+                    if 0 <= e <= n:
+                        tail = data[e:]
+                        k = 0
+                        while k < len(tail) and tail[k] != 0 and tail[k] <= 0x20:
+                            k += 1
+                        where = "entry=%d want_end=%d buffer=%r (parse end without the flag: %d)" % (entry, want_end, data[:120], e)
+                        if k == len(tail) or tail[k] > 0x20:
+                            stats.cls("flag_relation_must_fail")
+                            if accepted:
+                                lib.cJSON_Delete(po.tree)
+                                raise Violation("termination required and the value is not followed by blanks and a zero byte, yet the parse succeeded (%s)" % where, key="nt-accepted-rel")
+                        elif all(c == 0 for c in tail[k:]):
+                            stats.cls("flag_relation_must_succeed")
+                            if not accepted:
+                                raise Violation("a text accepted without the flag and followed only by blanks and a terminator is rejected when termination is required (%s)" % where, key="nt-rejected-rel")
                 self.judge(lib, stats, data, n, entry, rq, want_end, po, rc)
                 if accepted and n > 0 and (case["rseed"] + entry) % 3 == 0:
                     # the same call with its k-th allocation refused: a failure for whatever reason must report a position
@@ -161,6 +193,30 @@ class C10(Prop):
                 lib.cJSON_Delete(tree)
         if lib.ledger_live() != 0:
             raise Violation("allocations left after the call (%s)" % where, key="leak")
+
+
+def string_positions(body):
+    """offsets strictly inside string literals of a valid JSON text (not splitting an escape sequence)"""
+    out = []
+    in_str = False
+    i = 0
+    while i < len(body):
+        c = body[i]
+        if in_str:
+            if c == 0x5C:
+                i += 6 if body[i + 1:i + 2] == b"u" else 2
+                if in_str:
+                    out.append(min(i, len(body)))
+                continue
+            if c == 0x22:
+                in_str = False
+            else:
+                out.append(i)
+        elif c == 0x22:
+            in_str = True
+            out.append(i + 1)
+        i += 1
+    return [p for p in out if p <= len(body)]
 
 
 PROP = C10()
